@@ -339,7 +339,12 @@ fn c12_jpeg_box_map_small_grammar() {
     }
     for s in &seqs {
         for with_scan in [true, false] {
-            for trailing in 0..=2usize {
+            // trailing: 0..=2 stray bytes after the image; 3 = a second picture (SOI DQT EOI) stored after the first one
+            // (multi-picture files: previews, gain maps), which the scanner walks like the first
+            for trailing in 0..=3usize {
+                if trailing == 3 && (!with_scan || s.len() > 2) {
+                    continue;
+                }
                 let mut f = vec![0xffu8, 0xd8];
                 for k in s {
                     f.extend_from_slice(&kinds[*k].1);
@@ -350,7 +355,13 @@ fn c12_jpeg_box_map_small_grammar() {
                     f.extend_from_slice(&[0x12, 0xff, 0x00, 0x34, 0xff, 0xd0, 0x56]);
                     f.extend_from_slice(&[0xff, 0xd9]);
                 }
-                f.extend(std::iter::repeat(0x55u8).take(trailing));
+                if trailing == 3 {
+                    f.extend_from_slice(&[0xff, 0xd8]);
+                    f.extend(seg(0xdb, &[0u8; 5]));
+                    f.extend_from_slice(&[0xff, 0xd9]);
+                } else {
+                    f.extend(std::iter::repeat(0x55u8).take(trailing));
+                }
                 evals += 1;
                 let mut cur = Cursor::new(f.clone());
                 let got = std::panic::catch_unwind(std::panic::AssertUnwindSafe(|| bh.get_box_map(&mut cur)));
@@ -371,6 +382,7 @@ fn c12_jpeg_box_map_small_grammar() {
                                 let without_rst: Vec<BoxMap> = boxes.into_iter().filter(|b| !b.names[0].starts_with("RST")).collect();
                                 match box_map_contract(&without_rst, f.len() as u64) {
                                     Ok(()) => Some("box_map.jpg.restart_marker_boxes_overlap_scan_box".to_string()),
+                                    Err(c2) if trailing == 3 => Some(format!("box_map.jpg.second_picture.{c2}")),
                                     Err(c2) if trailing > 0 && c2 == "trailing_bytes_uncovered" => Some("box_map.jpg.trailing_bytes_uncovered".to_string()),
                                     Err(_) => Some(format!("box_map.jpg.{c}")),
                                 }
@@ -389,7 +401,7 @@ fn c12_jpeg_box_map_small_grammar() {
         }
     }
     println!("VERIF-B-SAMPLE violation classes this run: {:?}", counts);
-    println!("VERIF-B unit=png_io test=c12_jpeg_box_map_small_grammar evaluations={evals} nontrivial={nontrivial} exhaustive=true domain=SOI + 0..=4 header segments over 7 kinds (APP0, APP1, two C2PA APP11 segments, a foreign APP11 JP segment, DQT, COM) x with / without SOF+SOS+scan+EOI x 0..=2 trailing bytes");
+    println!("VERIF-B unit=png_io test=c12_jpeg_box_map_small_grammar evaluations={evals} nontrivial={nontrivial} exhaustive=true domain=SOI + 0..=4 header segments over 7 kinds (APP0, APP1, two C2PA APP11 segments, a foreign APP11 JP segment, DQT, COM) x with / without SOF+SOS+scan+EOI x 0..=2 trailing bytes or a second picture after EOI");
 }
 
 
